@@ -289,10 +289,80 @@ def shard(shard_i, nshards, payload):
     return res.to_dict()
 
 
+def workspace_shard(shard_i, nshards, payload):
+    """Documents the server knows from its workspace folder (read from disk when it starts) without their having been
+    opened: the answer is about the text on disk; next to them entries that cannot be read (a dangling link, a
+    directory named like a source file), which are nobody's document.  Then one of them is opened and edited."""
+    import os
+    res = core.Result()
+    tmp = core.worker_tmpdir("c15w")
+    bad01 = set(payload["bad_c01"])
+    try:
+        for i in range(shard_i, payload["n_workspaces"], nshards):
+            rng = core.rng_for(payload["seed"], "c15ws", i)
+            ws = os.path.join(tmp, "ws%d" % i)
+            os.makedirs(ws)
+            docs = {}
+            for k in range(rng.randint(3, 8)):
+                name = "%s%d.%s" % (rng.choice(["unit", "Pump", "a b", "lib"]), k, rng.choice(["st", "st", "ST", "iec"]))
+                docs[name] = make_doc(rng, bad01)[0]
+                open(os.path.join(ws, name), "w").write(docs[name])
+            unreadable = rng.sample(["dangling", "dangling2", "directory", "none"], rng.randint(1, 3))
+            for j, u in enumerate(unreadable):
+                if u.startswith("dangling"):
+                    os.symlink(os.path.join(tmp, "no-such-target-%d-%d" % (i, j)), os.path.join(ws, "%s%d.st" % (rng.choice(["0", "m", "zz"]), j)))
+                elif u == "directory":
+                    os.makedirs(os.path.join(ws, "%sarchive.st" % rng.choice(["", "_", "z"])), exist_ok=True)
+            res.count("workspace-with-unreadable-entries" if unreadable != ["none"] else "workspace")
+            s = lsp.Session(tmp, workspace=ws)
+            try:
+                names = sorted(docs)
+                rng.shuffle(names)
+                edited = None
+                for step, name in enumerate(names + names[:2]):
+                    uri = "file://" + os.path.join(ws, name).replace(" ", "%20")
+                    text = docs[name]
+                    how = "disk-only"
+                    if step == len(names):
+                        # now as an open document with a new text
+                        text = make_doc(rng, bad01)[0]
+                        s.open(uri, text, 1)
+                        docs[name] = text
+                        edited = name
+                        how = "opened"
+                    rid = s.tokens(uri)
+                    resp, _ = s.wait_response(rid, 20.0)
+                    res.evaluations += 1
+                    res.count("workspace-doc:" + how)
+                    case = {"text": text, "workspace": sorted(os.listdir(ws)), "document": name, "how": how}
+                    if resp is None or resp == "timeout":
+                        if resp == "timeout" and s.p.poll() is None:
+                            res.inconclusive.append({"why": "watchdog", "case": case})
+                        else:
+                            res.violation("server-died", "workspace:died", s.stderr[-300:].decode("utf-8", "replace"), case)
+                        break
+                    if "error" in resp:
+                        res.violation("error-response", "workspace:error", resp["error"], case)
+                        continue
+                    v = judge(text, resp.get("result"))
+                    if v is None:
+                        res.distinct.add(core.key_of("ws", i, name, how))
+                    else:
+                        res.violation(v[0], "workspace:%s:%s" % (how, v[1]), v[2], case)
+            finally:
+                s.shutdown(5.0)
+                s.kill()
+    finally:
+        shutil.rmtree(tmp, ignore_errors=True)
+    return res.to_dict()
+
+
 def run(tier, seed):
     core.build_plc()
-    payload = {"seed": seed, "bad_c01": sorted(known_bad_atoms("C01")), "n": 800 if tier == "quick" else 20000}
+    payload = {"seed": seed, "bad_c01": sorted(known_bad_atoms("C01")), "n": 800 if tier == "quick" else 20000,
+               "n_workspaces": 32 if tier == "quick" else 800}
     parts = core.run_sharded(shard, payload)
+    parts += core.run_sharded(workspace_shard, payload)
     w = core.Result()
     for f in core.load_findings(PROP):
         if f.get("witness"):
